@@ -38,12 +38,25 @@ BlockTimeOK(arch, ld, c) ==
     IF b # NoBlock /\ Loaded(ld, EpochOf(c.slot)) THEN c.status = "ok" /\ c.blocktime = b.blocktime
     \* neither property constrains getBlockTime for a slot without a block beyond not inventing a time
     ELSE Absent(c) \/ c.blocktime = 0
+\* getSlot / getFirstAvailableBlock: the last block of the newest loaded epoch / the first block of the oldest one
+\* (beyond the listed properties: the same "reproduce the archive" reading applied to the two edge queries)
+LoadedEpochs(arch, ld) == {e \in {arch[i].epoch : i \in 1..Len(arch)} : Loaded(ld, e)}
+MaxOf(S) == CHOOSE x \in S : \A y \in S : y <= x
+MinOf(S) == CHOOSE x \in S : \A y \in S : x <= y
+EdgeOK(arch, ld, c, newest) ==
+    LET es == LoadedEpochs(arch, ld) IN
+    IF es = {} THEN c.status # "ok"
+    ELSE LET bs == BlocksOf(arch, IF newest THEN MaxOf(es) ELSE MinOf(es)) IN
+         IF Len(bs) = 0 THEN c.status # "ok"
+         ELSE c.status = "ok" /\ c.slot = (IF newest THEN bs[Len(bs)].slot ELSE bs[1].slot)
 CallOK(arch, ld, c) ==
     CASE c.op = "getBlock" -> BlockOK(arch, ld, c)
       [] c.op = "getTransaction" -> TxOK(arch, ld, c)
       [] c.op = "getBlockTime" -> BlockTimeOK(arch, ld, c)
       \* fetch by CID through one epoch: a stored CID (sig >= 0: its section index) yields exactly that object's bytes,
       \* any other CID never yields bytes
+      [] c.op = "getSlot" -> EdgeOK(arch, ld, c, TRUE)
+      [] c.op = "getFirstAvailableBlock" -> EdgeOK(arch, ld, c, FALSE)
       [] c.op = "getNode" -> IF c.sig >= 0 THEN c.status = "ok" /\ c.txsame ELSE c.status # "ok"
       [] OTHER -> FALSE
 =============================================================================
